@@ -69,6 +69,18 @@ pub struct ReplyRec {
     pub msg_values: Vec<Vec<u8>>,
 }
 
+/// Everything else an entry point was handed (the complete `Env` and `Reply` as JSON). Not judged
+/// against the reference interpreter (always compares equal); part of the transcripts that the
+/// determinism check (C19) compares between runs.
+#[derive(Clone, Debug, Default, Serialize)]
+pub struct Unjudged(pub String);
+impl PartialEq for Unjudged {
+    fn eq(&self, _: &Self) -> bool {
+        true
+    }
+}
+impl Eq for Unjudged {}
+
 #[derive(Clone, Debug, PartialEq, Eq, Serialize)]
 pub struct TraceEntry {
     pub kind: Kind,
@@ -84,6 +96,7 @@ pub struct TraceEntry {
     pub pre_queries: Vec<QRes>,
     pub reads: Vec<ReadRes>,
     pub queries: Vec<QRes>,
+    pub raw: Unjudged,
 }
 
 /// Concrete (resolved) behaviour of one node, produced by the reference interpreter.
@@ -213,6 +226,7 @@ fn run_entry(kind: Kind, tag: u32, storage: &mut dyn Storage, querier: &dyn Quer
         pre_queries: vec![],
         reads: vec![],
         queries: vec![],
+        raw: Unjudged(format!("{} {}", cosmwasm_std::to_json_string(env).unwrap_or_default(), reply.map(|r| cosmwasm_std::to_json_string(r).unwrap_or_default()).unwrap_or_default())),
     };
     let Some(rtn) = rtn else {
         // node unknown to the plan (the real run diverged from the reference): record and return empty
@@ -272,6 +286,7 @@ fn run_query(tag: u32, storage: &dyn Storage, querier: &dyn Querier, env: &Env, 
         pre_queries: vec![],
         reads: vec![],
         queries: vec![],
+        raw: Unjudged(cosmwasm_std::to_json_string(env).unwrap_or_default()),
     };
     let Some(q) = q else {
         RT.with(|rt| rt.borrow_mut().trace.push(entry));
